@@ -58,6 +58,15 @@ fn main() {
         eprintln!("usage: svharness <suite> <quick|thorough|replay> <seed> [shard nshards] [replay-file]");
         std::process::exit(2);
     }
+    // Run with SIGXFSZ ignored (suites that lower RLIMIT_FSIZE want `EFBIG` from `write`, like a full disk, not a signal):
+    // an ignored signal stays ignored across `exec`, so the process replaces itself once through `sh -c "trap '' XFSZ; exec .."`.
+    if std::env::var_os("SVH_XFSZ_IGNORED").is_none() {
+        use std::os::unix::process::CommandExt;
+        if let Ok(exe) = std::env::current_exe() {
+            let err = std::process::Command::new("sh").arg("-c").arg("trap '' XFSZ; exec \"$0\" \"$@\"").arg(exe).args(&args[1..]).env("SVH_XFSZ_IGNORED", "1").exec();
+            eprintln!("note: could not re-exec with SIGXFSZ ignored: {err}");
+        }
+    }
     // Panics are expected observations in some suites; keep stderr quiet but recorded.
     std::panic::set_hook(Box::new(|info| {
         // panics inside `guard` are observations; anything else (a bug in a generator) must be visible
